@@ -1,9 +1,10 @@
 SPECIFICATION Spec
 CONSTANTS
-  Configs <- MCConfigs
+  Configs <- MCConfigs2
+  Mut = "none"
   SAT = SAT
   InScope <- ScopeHealthy
   ExcuseStuck = FALSE
 VIEW view
-INVARIANTS TypeOK AllowedDefined AllowedInRange AdmittedLeT ColdAfterIdle ColdAfterIdleObs WarmAfterSat NoStarvation
+INVARIANTS TypeOK AllowedDefined AllowedInRange AdmittedLeT ColdAfterIdle ColdAfterIdleObs WarmAfterSat WarmAfterSatThr NoStarvation
 CHECK_DEADLOCK FALSE
